@@ -1,6 +1,140 @@
-(* Properties/C10.v — TTHeader decode validates hostile frames and keeps the framing arithmetic. *)
+(* Properties/C10.v — TTHeader decode validates hostile frames and keeps the framing arithmetic
+   (protocol/ttheader/decode.go, utils.go).  Only statements; proofs are in
+   Proofs/TTHeaderSec.v (section grammar, DESIGN A.6), Proofs/TTHeaderDec.v, Proofs/TTHeaderP.v.
+
+   [decode b] is the model of Decode over a reader that can deliver exactly the byte string [b]
+   (bufiox.NewBytesReader(b), or any stream fragmentation of b — C04): it returns the number of
+   bytes consumed (Reader.ReadLen) and the result.  [decode_from_bytes] is DecodeFromBytes.
+   Quantification: every [b : list N]; [wf b] says that its elements are bytes (< 256).
+   Spec/FrameLayout.v: [declared b] = 4 * the 16-bit size field, a mathematical product;
+   [info_of b] = the [declared b] bytes after the 14-byte meta block; [accepts]; the section
+   grammar [sec]/[enc_secs]/[secs_ok] and its meaning [ointerp] (later sections override
+   earlier ones; a map exists iff a section of its kind occurs). *)
 From GV Require Import Lib.Bytes Lib.Res Gen.Consts Model.TTHeader Spec.FrameLayout Proofs.TTHeaderP.
 Open Scope N_scope.
 
-Theorem C10_consts : c_meta = L_meta /\ c_max = L_max /\ size_bits = 32 /\ gdpr_key = gdpr.
-Proof. pose proof consts_ok as H. tauto. Qed.
+(* the values the property names are the ones in the Go source (regenerated on every run) *)
+Theorem C10_consts :
+  c_meta = L_meta /\ c_magic = L_magic16 * 65536 /\ c_mask = 65535 * 65536 /\ c_max = L_max /\
+  c_s32 = 4 /\ c_s16 = 2 /\ id_pad = 0 /\ id_kv = 1 /\ id_intkv = 16 /\ id_acl = 17 /\
+  size_bits = 32 /\ ttheader_Decode_headerInfoSize_signed = 0%Z /\
+  map Z.to_N ttheader_checkProtocolID_cases = [0; 4; 3; 16; 17] /\ gdpr_key = gdpr /\
+  c_streaming = L_streaming.
+Proof. exact consts_ok. Qed.
+
+(* no panic, no out-of-bounds access, no exhausted fuel for ANY list (bytes or not); never
+   more consumed than the input holds nor than 14 + the declared size *)
+Theorem C10_decode_total : forall b,
+  safe (snd (decode b)) /\ snd (decode b) <> Err e_fuel /\
+  fst (decode b) <= N.min (len b) (L_meta + declared b).
+Proof. exact p_decode_total. Qed.
+
+(* success exactly on the frames the layout admits: long enough for 14 + declared, magic
+   0x1000, 2 <= declared <= 65536, protocol id in the allow-list, transform count within the
+   info, and the remaining info bytes are [enc_secs secs] for some list of complete,
+   representable sections (padding may interleave; a zero-count section is 3 bytes; a section
+   cut anywhere is an error) *)
+Theorem C10_decode_ok_iff : forall b, wf b -> ((exists r, snd (decode b) = Ok r) <-> accepts b).
+Proof. exact decode_ok_iff. Qed.
+
+(* ... and then: everything declared is consumed, HeaderLen = 14 + declared, PayloadLen =
+   total length + 4 - HeaderLen, flags/sequence id as in the frame, and for EVERY way of
+   reading the info as protocol id, transform ids and sections, the protocol id and the two
+   maps are the ones those sections denote *)
+Theorem C10_decode_ok_values : forall b r,
+  wf b -> snd (decode b) = Ok r ->
+  fst (decode b) = L_meta + declared b /\
+  d_hlen r = Z.of_N (L_meta + declared b) /\
+  d_plen r = (Z.of_N (field_at b 0 4) + 4 - d_hlen r)%Z /\
+  d_flags r = field_at b 6 2 /\ d_seq r = to_signed 32 (field_at b 8 4) /\
+  forall pid nt rest secs,
+    info_of b = pid :: nt :: rest -> secs_ok secs -> drop nt rest = enc_secs secs ->
+    d_pid r = pid /\ d_int r = fst (ointerp secs) /\ d_str r = snd (ointerp secs).
+Proof. exact p_decode_ok_values. Qed.
+
+(* the section reader against the grammar (DESIGN A.6), both directions, from any index *)
+Theorem C10_sections_parse : forall secs fuel buf idx im sm,
+  secs_ok secs -> drop idx buf = enc_secs secs -> (length (enc_secs secs) < fuel)%nat ->
+  read_kv_info fuel buf idx im sm = Ok (ointerp_from (im, sm) secs).
+Proof. exact kv_fwd. Qed.
+
+Theorem C10_sections_only : forall fuel buf idx im sm r,
+  wf buf -> read_kv_info fuel buf idx im sm = Ok r ->
+  exists secs, secs_ok secs /\ drop idx buf = enc_secs secs /\ r = ointerp_from (im, sm) secs.
+Proof. exact kv_bwd. Qed.
+
+(* the executable reference the correspondence run judges the implementation with
+   (Spec/FrameLayout.v: parse_secs, spec_decode) decides exactly the declarative grammar and
+   [accepts], and the model of Decode is the same function as the reference decoder on every
+   byte string: result, bytes consumed, and failure *)
+Theorem C10_parse_secs_iff : forall b secs,
+  wf b -> (parse_secs b = Some secs <-> secs_ok secs /\ b = enc_secs secs).
+Proof. exact parse_secs_iff. Qed.
+
+Theorem C10_spec_decode_accepts : forall b, wf b -> ((exists s, spec_decode b = Some s) <-> accepts b).
+Proof. exact spec_decode_accepts. Qed.
+
+Theorem C10_decode_refines_spec : forall b,
+  wf b ->
+  match spec_decode b with
+  | Some s => decode b = (L_meta + declared b, Ok (of_spec s))
+  | None => exists e, snd (decode b) = Err e
+  end.
+Proof. exact decode_refines_spec. Qed.
+
+(* DecodeFromBytes (also the entry point C03 exercises): total, and a successful result never
+   reports a header longer than the input *)
+Theorem C10_decode_from_bytes_total : forall b,
+  safe (decode_from_bytes b) /\ decode_from_bytes b <> Err e_fuel.
+Proof. exact p_decode_from_bytes_total. Qed.
+
+Theorem C10_decode_from_bytes_hlen : forall b r,
+  wf b -> decode_from_bytes b = Ok r ->
+  (Z.of_N L_meta + 2 <= d_hlen r <= Z.of_N (len b))%Z /\ d_hlen r = Z.of_N (L_meta + declared b).
+Proof. exact p_decode_from_bytes_hlen. Qed.
+
+(* ---------- non-vacuity ---------- *)
+(* a frame with three transform ids, interleaved padding, repeated sections (the later "a"
+   overrides the earlier, the string-keyed token overrides the ACL section), an empty string
+   section and a 5-byte payload: accepted, with exactly these values *)
+Definition ex_secs : list sec :=
+  [Pad; KV [([97], [49])]; Pad; Pad; IntKV [(1, [120]); (1, [121])]; ACL [116; 49];
+   KV [([97], [50]); (gdpr, [116; 50])]; KV []].
+Definition ex_info : bytes := [4; 3; 9; 8; 7] ++ enc_secs ex_secs ++ [0].
+Definition ex_frame : bytes :=
+  be 4 (14 + len ex_info + 5 - 4) ++ be 2 L_magic16 ++ be 2 2 ++ be 4 4294967295
+     ++ be 2 (len ex_info / 4) ++ ex_info ++ [1; 2; 3; 4; 5].
+
+Example C10_nonvacuous_accept :
+  wf ex_frame /\ accepts ex_frame /\ secs_ok ex_secs /\
+  exists r, decode ex_frame = (14 + len ex_info, Ok r) /\
+            d_hlen r = Z.of_N (14 + len ex_info) /\ d_plen r = 5%Z /\ d_seq r = (-1)%Z /\
+            d_flags r = 2 /\ d_pid r = 4 /\
+            d_int r = Some [(1, [121]); (1, [120])] /\
+            option_map (slookup [97]) (d_str r) = Some (Some [50]) /\
+            option_map (slookup gdpr) (d_str r) = Some (Some [116; 50]).
+Proof.
+  assert (Hw : wf ex_frame) by (apply wfbb_wf; vm_compute; reflexivity).
+  split; [exact Hw|]. split.
+  - apply (decode_ok_iff ex_frame Hw). vm_compute. eexists. reflexivity.
+  - split.
+    + apply Forall_forall. intros s Hs. vm_compute in Hs.
+      repeat (destruct Hs as [<-|Hs]; [cbn; repeat constructor; cbn; try lia|]); try contradiction.
+    + eexists. split; [vm_compute; reflexivity|]. vm_compute. repeat split.
+Qed.
+
+(* rejected: size field 0x4001 (the former 16-bit wrap-around accepted it as 4 bytes), a
+   section cut in the middle, an unknown info id, an unsupported protocol id, fewer bytes
+   than declared *)
+Example C10_nonvacuous_reject :
+  let fr sf info := be 4 100 ++ be 2 L_magic16 ++ be 2 0 ++ be 4 1 ++ be 2 sf ++ info in
+  decode (fr 16385 [0; 0; 0; 0; 0; 0; 0; 0]) = (14, Err e_size) /\
+  decode (fr 0 [0; 0; 0; 0]) = (14, Err e_size) /\
+  decode (fr 2 [0; 0; 1; 0; 1; 0; 1; 97]) = (22, Err e_kv) /\
+  decode (fr 1 [0; 0; 2; 0]) = (18, Err e_infoid) /\
+  decode (fr 1 [2; 0; 0; 0]) = (18, Err e_pid) /\
+  decode (fr 1 [0; 3; 0; 0]) = (18, Err e_trans) /\
+  decode (fr 2 [0; 0; 0; 0; 0; 0; 0]) = (14, Err e_short2) /\
+  decode [0; 0; 0; 0; 16; 0] = (0, Err e_short) /\
+  decode (be 4 100 ++ be 2 4097 ++ be 2 0 ++ be 4 1 ++ be 2 1 ++ [0; 0; 0; 0]) = (14, Err e_magic).
+Proof. vm_compute. repeat split. Qed.
